@@ -24,12 +24,13 @@ def norm_callee(c):
     return mirlib.norm_callee(c)
 
 
-def callee_counter(b):
+def callee_counter(b, bodies=()):
     c = collections.Counter()
-    for bl in b['blocks']:
-        t = bl['term']
-        if not bl['cleanup'] and t['k'] == 'call':
-            c[short_ty(norm_callee(t['callee']))] += 1
+    for bb in [b] + [x for x in bodies if x['fn'].startswith(b['fn'] + '::{closure')]:
+        for bl in bb['blocks']:
+            t = bl['term']
+            if not bl['cleanup'] and t['k'] == 'call':
+                c[short_ty(norm_callee(t['callee']))] += 1
     return c
 
 
@@ -93,14 +94,16 @@ def canonicalise(d):
                 if [short_ty(l['ty']) for l in b['locals'][:b['argc'] + 1]] != msig:
                     continue
                 same_name = n.split('::')[-1] == m.split('::')[-1]
-                sim = similarity(mc, callee_counter(b))
+                sim = similarity(mc, callee_counter(b, bodies))
                 cand[m].append((same_name, sim, n))
         taken = {}
         for m, cs in cand.items():
             cs.sort(reverse=True)
             best = cs[0]
             # a move keeps the name; a rename must look like the same body and be the only such candidate
-            ok = best[0] or (best[1] >= 0.6 and (len(cs) == 1 or cs[1][1] < best[1] - 0.2))
+            # (a signature no other missing function shares and a single candidate: the body may have been rewritten more freely)
+            sole = len(cs) == 1 and sum(1 for m2 in cand if any(c[2] == best[2] for c in cand[m2])) == 1
+            ok = best[0] or (best[1] >= 0.6 and (len(cs) == 1 or cs[1][1] < best[1] - 0.2)) or (sole and best[1] >= 0.34)
             if ok and best[2] not in taken:
                 taken[best[2]] = m
         # a new name claimed by two missing functions is ambiguous: drop it
